@@ -903,7 +903,8 @@ def run_coerced(ctx):
                 cases.append(["sweep", [{"py": name}, disp[e["sig"]], i, lit(As), lit(g)]])
                 meta.append((e, As, g))
     names = sorted({c[1][0]["py"] for c in cases})
-    res = cybuild.call_cases(wd, cases, setup="import %s\n%s" % (", ".join(names), RT_SETUP), alarm=30) if cases else []
+    res = cybuild.call_cases(wd, cases, setup="import %s\n%s" % (", ".join(names), RT_SETUP), alarm=30,
+                             max_crashes=400) if cases else []
     _t(ctx, 'rt calls done')
     dq, dmeta = [], []
     for (e, As, Bs), r in zip(meta, res):
